@@ -355,6 +355,24 @@ func samCorruptions(r *rand.Rand, fields []string) (kinds []string, lines []stri
 			add(fmt.Sprintf("tag %q (a damaged %q) inserted at field %d", bad, good, pos+1), f)
 		}
 	}
+	// an ill-typed tag that REPEATS the name of a tag the line already has (placed before or after it): a line holds
+	// a tag once, so a writer never produces this; a parser that meets it must still look at it
+	if len(fields) > 11 {
+		for _, bad := range []string{"i:abc", "i:", "i:1.5", "f:x", "f:1e", "A:ab", "A:", "H:zz", "H:abc", "Q:1", "ii:1"} {
+			if r.IntN(2) != 0 {
+				continue
+			}
+			at := 11 + r.IntN(len(fields)-11)
+			if len(fields[at]) < 2 {
+				continue
+			}
+			f := cp()
+			pos := at + r.IntN(2)
+			dupTag := fields[at][:2] + ":" + bad
+			f = append(f[:pos:pos], append([]string{dupTag}, fields[pos:]...)...)
+			add(fmt.Sprintf("ill-typed tag %q repeating the name of field %d, inserted at field %d", dupTag, at+1, pos+1), f)
+		}
+	}
 	for _, bad := range []string{"XXi5", "XX:i5", "XX", ":", "", "XX:i:abc", "XX:i:", "XX:i:1.5", "XX:f:x", "XX:f:", "XX:f:1e", "XX:A:ab", "XX:A:", "XX:H:abc", "XX:H:zz", "XX:H:0", "XX:Q:1", "XX::1", "XX:ii:1"} {
 		f := cp()
 		pos := 11 + r.IntN(len(f)-11+1)
